@@ -105,6 +105,14 @@ def _split(env, cfg):
         return
     env.holds("split accepts only cut points inside the interval", inside)
     kmode.unchanged(env, curve, snap, "split")
+    if cfg["nc"] == 0:
+        # an empty cut set is not "no argument": no interior cut point, hence the whole curve as one piece
+        for empty in ([], (), [t[0], t[-1]]):
+            whole = curve.split(empty)
+            env.holds(f"split({empty if not empty else 'ends only'}) returns one piece on the whole interval",
+                      len(whole) == 1 and list(whole[0].knotvector) == list(kv.U) and whole[0] is not curve)
+            if len(whole) == 1 and len(whole[0].ctrlpoints) == kv.n:
+                env.eq("... with the control points of the curve", [q for q in whole[0].ctrlpoints], list(P))
     # expected boundaries
     if cfg["nc"] == 0:
         bounds = list(t)
